@@ -9,6 +9,8 @@
          value in [rts] (what came back through a library / file / database path and is not
          literally [decoded]).
    CDec: a real decoder accepted or rejected [input]; the model's checks must agree.
+   CDecOut: a real decoder accepted [input] and produced [decoded]; the model's decoder (checks,
+         conversion, legacy overrides) must produce the same leaves.
    CFields: the leaf paths of a real struct as reflect sees them; must be the generated ones.
    CDisk: a history of operations on one REAL key file store (key.NewFileStore: SaveKeyPair /
          SaveShare / SaveGroup / Load* / Reset) and what each load returned: the number of the
@@ -24,6 +26,7 @@ Inductive ccase :=
 | CRt (a b : string) (durs : list (Z * bytes)) (input decoded : record)
 | CPair (a b : string) (durs : list (Z * bytes)) (input mid decoded : record) (rts : list record)
 | CDec (name : string) (durs : list (Z * bytes)) (good_addrs : list bytes) (hs : bytes) (input : record) (accepted : bool)
+| CDecOut (name : string) (durs : list (Z * bytes)) (good_addrs : list bytes) (hs : bytes) (input decoded : record)
 | CFields (typ : string) (leaves : list path)
 | CDisk (ops : list dop) (loads : list (option Z)).
 
@@ -89,6 +92,11 @@ Definition ok (c : ccase) : bool :=
       match decode (ds_of durs) (pd_of durs) (fun a => mem_bytes a good) hs mirrors name input with
       | Some _ => accepted
       | None => negb accepted
+      end
+  | CDecOut name durs good hs input decoded =>
+      match decode (ds_of durs) (pd_of durs) (fun a => mem_bytes a good) hs mirrors name input with
+      | Some x => rec_match x decoded
+      | None => false
       end
   | CDisk ops loads =>
       (fix eq (a b : list (option Z)) : bool :=
